@@ -1279,6 +1279,7 @@ func TestCheck(t *testing.T) {
 		pprof.StartCPUProfile(f)
 		defer pprof.StopCPUProfile()
 	}
+	adapterSweep(r)
 	ex := explore(t, r, pl, n, os.Getenv("VERIF_C17_FULLKEY") != "", true)
 	pprof.StopCPUProfile()
 	pl.close()
